@@ -283,7 +283,24 @@ func genC10(g *rand.Rand, tier string) any {
 		id++
 		// client: open, maybe send, then receive until the end; never half-closes
 		// unless the handler needs it
-		switch g.IntN(3) {
+		scen := g.IntN(4)
+		if scen == 3 && p.Links[1].Cap != -1 {
+			// With a bounded server-to-client link and callers that do not read, the
+			// trailer of the returned handler waits behind the stuck writer, the
+			// stream stays registered and the connection's reader blocks handing it
+			// the next body: a flow-control deadlock of the workload in which the
+			// server never reads again and so cannot observe a read failure.
+			scen = g.IntN(3)
+		}
+		switch scen {
+		case 3: // handler returns at once while the caller keeps sending: late bodies are answered by server resets
+			if c.Kind == KSStream {
+				c.Kind = KBidi
+			}
+			n := 2 + g.IntN(4)
+			c.CSendN = n
+			c.CProg = []Op{{K: 'f', A: []Op{{K: 's', N: n}}, B: []Op{{K: 'R'}}}}
+			c.HProg = nil
 		case 0: // handler blocked in Recv
 			c.CProg = []Op{{K: 'f', A: nil, B: []Op{{K: 'R'}}}}
 			c.HProg = []Op{{K: 'R'}}
@@ -526,6 +543,12 @@ func genC11(g *rand.Rand, tier string) any {
 		// wait until the handler has queued its messages, then cancel and leave
 		b = append(b, Op{K: 'y'}, Op{K: 'y'}, Op{K: 'y'}, Op{K: 'x'})
 		a.CProg = []Op{{K: 'f', A: ap, B: b}}
+		if g.IntN(4) == 0 {
+			// the caller has gone before the open even returns: its context is already
+			// finished, but a transport that does not look at contexts still carries
+			// the open, so the handler runs and speaks to nobody
+			a.PreDone = 1 + g.IntN(2)
+		}
 	}
 	p.Abandon = a
 	no := g.IntN(5)
@@ -607,6 +630,9 @@ func execC11(e *Env, pp any) {
 			e.Note("abandon.unread>=2")
 		}
 	}
+	if p.Mode == 1 && p.Abandon.PreDone != 0 && ar.HInvoked > 0 {
+		e.Note("abandon.ctx-done-during-open")
+	}
 	if p.Mode == 1 && ar.CancelEv != 0 {
 		e.Note("abandon.caller-cancel")
 		if p.Abandon.HSendN-len(ar.CGot) >= 3 {
@@ -684,7 +710,7 @@ type C14Params struct {
 	N        int       `json:"n"`        // RPCs in the history
 	Inflight int       `json:"inflight"` // concurrently
 	GenSeed  uint64    `json:"genseed"`
-	Outcomes []int     `json:"outcomes"` // weights: ok, error, cancel, deadline, early-return (server reset), failed open
+	Outcomes []int     `json:"outcomes"` // weights: ok, error, cancel, deadline, early-return (server reset), failed open, context finished before the call
 	Side     SideOpts  `json:"side"`     // interceptors / stats handlers (family c20.outcomes)
 }
 
@@ -698,7 +724,7 @@ func genC14(g *rand.Rand, tier string) any {
 	}
 	p.Inflight = 1 + g.IntN(32)
 	p.GenSeed = g.Uint64()
-	p.Outcomes = []int{1 + g.IntN(4), g.IntN(3), g.IntN(4), g.IntN(3), g.IntN(3), g.IntN(3)}
+	p.Outcomes = []int{1 + g.IntN(4), g.IntN(3), g.IntN(4), g.IntN(3), g.IntN(3), g.IntN(3), g.IntN(3)}
 	return p
 }
 
@@ -730,7 +756,7 @@ func execC14(e *Env, pp any) {
 		return nil
 	}
 	tot := 0
-	for len(p.Outcomes) < 6 {
+	for len(p.Outcomes) < 7 {
 		p.Outcomes = append(p.Outcomes, 0)
 	}
 	for _, w := range p.Outcomes {
@@ -820,6 +846,13 @@ func execC14(e *Env, pp any) {
 				failOpen[id] = true
 				e.Note("outcome.failed-open")
 			}
+		case 6: // the caller's context is already cancelled / past its deadline when the call is made
+			c.PreDone = 1 + g.IntN(2)
+			c.HProg = append(c.HProg, Op{K: 'y'})
+			if c.Kind != KUnary && !readsAll(c.CProg) {
+				c.CProg = append(c.CProg, Op{K: 'R'})
+			}
+			e.Note("outcome.ctx-done-before-call")
 		default:
 			e.Note("outcome.ok")
 		}
